@@ -63,19 +63,26 @@ Theorem C12_link_cleanup : forall v r,
 Proof. exact link_cleanup. Qed.
 Print Assumptions C12_link_cleanup.
 
-(* withheld link (ENOENT / ESRCH): '' for a live process, ZombieProcess for a zombie,
-   NoSuchProcess when /proc/<pid> is gone *)
-Theorem C12_link_withheld : forall v l,
-  withheld l = true -> v_pdir v = true ->
-  pl_readlink v l = if is_zombie v then Exc ZombieProcess else Val [].
+(* withheld link (ENOENT / ESRCH), decided by probing /proc/<pid>/stat: '' for a live
+   process, ZombieProcess for a zombie; NoSuchProcess when the stat file is absent (even if
+   the directory still resolves); AccessDenied when the probe itself is refused *)
+Theorem C12_link_withheld : forall v l z,
+  withheld l = true -> v_stat v = Some z ->
+  pl_readlink v l = if z then Exc ZombieProcess else Val [].
 Proof. exact link_withheld. Qed.
 Print Assumptions C12_link_withheld.
 
 Theorem C12_link_gone : forall v l,
-  withheld l = true -> v_pdir v = false -> v_stat v = None ->
+  withheld l = true -> v_stat v = None -> v_stat_denied v = false ->
   pl_readlink v l = Exc NoSuchProcess.
 Proof. exact link_gone. Qed.
 Print Assumptions C12_link_gone.
+
+Theorem C12_link_probe_denied : forall v l,
+  withheld l = true -> v_stat v = None -> v_stat_denied v = true ->
+  pl_readlink v l = Exc AccessDenied.
+Proof. exact link_probe_denied. Qed.
+Print Assumptions C12_link_probe_denied.
 
 (* exe() of a live process: the cleaned link target, or -- link withheld (ENOENT/ESRCH) --
    cmdline()[0] when that is an absolute path to an executable regular file ([exec_file]:
@@ -124,6 +131,24 @@ Theorem C12_name_zombie : forall c v,
   v_stat v = Some true -> v_cmdline v = FData [] -> fe_name c v = Val (v_comm v).
 Proof. exact name_zombie. Qed.
 Print Assumptions C12_name_zombie.
+
+(* a zombie, whatever its name (15 bytes included, where name() consults cmdline()): name()
+   is the kernel name; cmdline(), exe(), cwd() raise ZombieProcess *)
+Theorem C12_zombie_block : forall c comm esrch,
+  run_ops c None (zombie_ops (view_zombie comm esrch)) = spec_zombie comm.
+Proof. exact zombie_block. Qed.
+Print Assumptions C12_zombie_block.
+
+(* ---- a block of calls *)
+
+(* cmdline(), cmdline(), name(), exe() on one object over an unchanged kernel state: every
+   answer is the one the kernel state demands (the model has no shared mutable result; that
+   the implementation's returned list is not aliased with a cache is what the harness's
+   history cases check against this statement) *)
+Theorem C12_history : forall r,
+  wf_proc r = true -> run_ops now None (hist_ops (view_proc r)) = spec_hist r.
+Proof. exact history_now. Qed.
+Print Assumptions C12_history.
 
 (* ---- regression: the code before the repairs breaks the statements above *)
 
